@@ -995,4 +995,11 @@ async def run_program(prog: dict, faults: list, case_dir: str, seed: int, failur
 
 
 def run_sync(*a, **k) -> RunResult:
-    return asyncio.run(run_program(*a, **k))
+    """One run; a run stopped by the wall-clock watchdog (loaded machine) is repeated once with a
+    doubled watchdog before the caller reports it as inconclusive."""
+    res = asyncio.run(run_program(*a, **k))
+    if res.status == "walltimeout":
+        k = dict(k, wall_timeout=2 * k.get("wall_timeout", 60.0))
+        res = asyncio.run(run_program(*a, **k))
+        res.watchdog_retry = True
+    return res
